@@ -85,6 +85,7 @@ type Stats struct {
 	QUnsat        int
 	QUnknown      int
 	QErrors       int
+	QSlow         int
 	SolverSec     float64
 	Steps         int64
 	InfeasibleEnd int
@@ -115,6 +116,7 @@ func (s *Stats) add(o *Stats) {
 	s.QUnsat += o.QUnsat
 	s.QUnknown += o.QUnknown
 	s.QErrors += o.QErrors
+	s.QSlow += o.QSlow
 	s.SolverSec += o.SolverSec
 	s.MergeOK += o.MergeOK
 	s.CacheHits += o.CacheHits
@@ -346,8 +348,9 @@ func (w *Worker) flushSolverStats() {
 	w.stats.QUnsat += s.Unsat
 	w.stats.QUnknown += s.Unknown
 	w.stats.QErrors += s.Errors
+	w.stats.QSlow += s.SlowOK
 	w.stats.SolverSec += s.SolverSec
-	s.Queries, s.Sat, s.Unsat, s.Unknown, s.Errors, s.SolverSec = 0, 0, 0, 0, 0, 0
+	s.Queries, s.Sat, s.Unsat, s.Unknown, s.Errors, s.SolverSec, s.SlowOK = 0, 0, 0, 0, 0, 0, 0
 }
 
 func (w *Worker) close() { w.solver.Close() }
